@@ -206,9 +206,32 @@ pub fn c04_case(src: &mut Src, obs: &mut Obs) -> CaseResult {
         v0 = v;
         obs.label("threshold-sized");
     }
+    let mut wide = false;
+    if src.chance(12) {
+        // wide containers: structures with around 128 / 256 variable-sized members (their framing
+        // offsets alone cross the offset-width thresholds) and arrays with that many elements
+        let n = *src.pick(&[100usize, 127, 128, 129, 130, 140, 200, 250, 255]);
+        let member = |src: &mut Src| match src.below(3) {
+            0 => RVal::S(String::new()),
+            1 => RVal::S("a".repeat(src.below(3))),
+            _ => RVal::A(RSig::Y, vec![]),
+        };
+        if src.bool() {
+            // (a signature is at most 255 bytes: up to 253 single-code members)
+            v0 = RVal::St((0..n.min(253)).map(|_| member(src)).collect());
+        } else {
+            v0 = RVal::A(RSig::S, (0..n).map(|_| RVal::S("a".repeat(src.below(3)))).collect());
+        }
+        s0 = v0.sig();
+        wide = true;
+        obs.label("wide-container");
+    }
     let as_variant = src.below(3) == 0;
     let (s, v) = if as_variant { (RSig::V, RVal::V(Box::new((s0.clone(), v0.clone())))) } else { (s0.clone(), v0.clone()) };
-    let target = src.below(12);
+    // (wide containers go to the dynamic targets, which follow any signature)
+    let target = if wide { src.below(4) } else { src.below(12) };
+    // for wide containers also plain runs of equal bytes around the offset-width thresholds
+    let mode = if wide && src.chance(110) { 3 } else { mode };
     let (bytes, what, nfds): (Vec<u8>, String, Vec<u32>) = match mode {
         0 => {
             // mutated valid encoding
@@ -264,6 +287,11 @@ pub fn c04_case(src: &mut Src, obs: &mut Obs) -> CaseResult {
             let n = src.below(64);
             (src.bytes(n), "random bytes".into(), vec![0, 1])
         }
+        3 => {
+            let n = if src.bool() { *src.pick(&[126usize, 127, 128, 129, 254, 255, 256, 257, 258, 259, 260, 300, 511, 512, 513]) } else { 250 + src.below(270) };
+            let fill = *src.pick(&[0u8, 0, 1, 0xff]);
+            (vec![fill; n], format!("{n} bytes of {fill:#x}"), vec![])
+        }
         _ => {
             // structure-aware garbage: plausible small lengths/offsets
             let n = src.below(48);
@@ -304,5 +332,82 @@ pub fn c04_case(src: &mut Src, obs: &mut Obs) -> CaseResult {
         obs.nontrivial(fnv(&k));
         obs.sample(&format!("{}-{}", if is_gv { "gv" } else { "dbus" }, outcome), describe);
     }
+    Ok(())
+}
+
+/// C04, wide containers: structures with around 128 / 256 variable-sized members and arrays with
+/// that many elements (their framing offsets alone cross the GVariant offset-width thresholds),
+/// fed runs of equal bytes, truncated and tail-poked valid serialisations of lengths around the
+/// thresholds. Same oracle as `c04_case`.
+pub fn c04_wide_case(src: &mut Src, obs: &mut Obs) -> CaseResult {
+    let fmts = formats();
+    let fmt = fmts[fmts.len() - 1 - (src.chance(40) as usize).min(fmts.len() - 1)];
+    let is_gv = fmt != Format::DBus;
+    let big = src.bool();
+    let off = *src.pick(&[0usize, 0, 0, 8, 1, 3, 4, 7]);
+    let n = *src.pick(&[100usize, 127, 128, 129, 130, 140, 200, 250, 253]);
+    let member = |src: &mut Src| match src.below(3) {
+        0 => RVal::S(String::new()),
+        1 => RVal::S("a".repeat(src.below(3))),
+        _ => RVal::A(RSig::Y, vec![]),
+    };
+    let v0 = match src.below(3) {
+        0 => RVal::A(RSig::S, (0..n).map(|_| RVal::S("a".repeat(src.below(3)))).collect()),
+        1 => RVal::St((0..n).map(|_| RVal::S(String::new())).collect()),
+        _ => RVal::St((0..n).map(|_| member(src)).collect()),
+    };
+    let s = v0.sig();
+    let target = src.below(4);
+    let (bytes, what): (Vec<u8>, String) = match src.below(3) {
+        0 => {
+            let len = if src.bool() { *src.pick(&[126usize, 127, 128, 129, 254, 255, 256, 257, 258, 259, 260, 261, 300, 511, 512, 513]) } else { 250 + src.below(280) };
+            let fill = *src.pick(&[0u8, 0, 0, 1, 0xff]);
+            (vec![fill; len], format!("{len} bytes of {fill:#x}"))
+        }
+        k => {
+            let mut b = if is_gv { gv::serialize(&v0, big, off, gv::Dev::default()).0 } else { dbus::marshal(&v0, big, off).bytes };
+            let mut w = String::from("valid serialisation");
+            if k == 1 && !b.is_empty() {
+                let cut = if src.bool() { src.below(b.len()) } else { b.len().saturating_sub(1 + src.below(12)) };
+                b.truncate(cut);
+                w = format!("valid serialisation truncated to {cut}");
+            } else if !b.is_empty() {
+                let i = b.len() - 1 - src.below(b.len().min(300));
+                b[i] = src.u8();
+                w = format!("valid serialisation with byte {i} poked");
+            }
+            (b, w)
+        }
+    };
+    let sig = to_sig(&s);
+    let data = Data::new_fds(bytes.clone(), ctx(fmt, big, off), Vec::<std::os::fd::OwnedFd>::new());
+    let describe = || format!("format={:?} wide {} with {n} members, target={} {} off={} input[{}]={}… ({})", fmt, if matches!(v0, RVal::A(..)) { "array" } else { "structure" }, target, if big { "BE" } else { "LE" }, off, bytes.len(), hex(&bytes[..bytes.len().min(24)]), what);
+    let (r, peak) = measure(|| guarded(|| decode_all(&data, &sig, target)));
+    let r = match r {
+        Ok(r) => r,
+        Err(mut p) => {
+            p.msg = format!("decoding panicked: {} ; {}", p.msg, describe());
+            return Err(p);
+        }
+    };
+    let outcome = match r {
+        Ok(o) => o,
+        Err(mut f) => {
+            f.msg = format!("{} ; {}", f.msg, describe());
+            return Err(f);
+        }
+    };
+    let bound = 1024 * (bytes.len() + s.to_string().len()) + 64 * 1024;
+    if peak > bound {
+        return Err(Failure::new(format!("decoding allocated {peak} bytes at peak for {} input bytes (bound {bound}); {}", bytes.len(), describe())));
+    }
+    obs.label(outcome);
+    obs.label(if is_gv { "wide-gvariant" } else { "wide-dbus" });
+    let mut k = s.to_string().into_bytes();
+    k.extend_from_slice(&bytes);
+    k.push(target as u8);
+    k.push(is_gv as u8);
+    obs.nontrivial(fnv(&k));
+    obs.sample(&format!("wide-{}-{}", if is_gv { "gv" } else { "dbus" }, outcome), describe);
     Ok(())
 }
